@@ -284,8 +284,6 @@ namespace foonathan
               derived_size_(sizeof(T)),
               derived_alignment_(alignof(T))
             {
-                FOONATHAN_MEMORY_ASSERT(std::size_t(derived_size_) == sizeof(T)
-                                        && std::size_t(derived_alignment_) == alignof(T));
             }
 
             /// \effects Deallocates the memory given to it.
@@ -306,8 +304,8 @@ namespace foonathan
             }
 
         private:
-            unsigned short derived_size_      = 0,
-                           derived_alignment_ = 0; // use unsigned short here to save space
+            // must hold every size: the memory is released with these values
+            std::size_t derived_size_ = 0, derived_alignment_ = 0;
         };
     } // namespace memory
 } // namespace foonathan
